@@ -697,6 +697,21 @@ func analyse(data []byte) (a analysis) {
 	return a
 }
 
+// hugeCountAllocation reports whether replaying / committing data would size an
+// allocation from a header count above 2^24 (ingest-first batches and large
+// batches do that).
+func hugeCountAllocation(data []byte, an analysis) bool {
+	h, ok := batchrepr.ReadHeader(data)
+	if !ok || h.Count <= 1<<24 || len(data) <= batchrepr.HeaderLen {
+		return false
+	}
+	switch base.InternalKeyKind(data[batchrepr.HeaderLen]) {
+	case base.InternalKeyKindIngestSST, base.InternalKeyKindIngestSSTWithBlobs, base.InternalKeyKindExcise:
+		return true
+	}
+	return an.memSize >= tinyMemTable/4
+}
+
 // killClass names the structural reason (computed by the harness, not by
 // pebble) for which DB.Apply is known to die on the unchanged tree.
 func killClass(data []byte, decodes bool) string {
@@ -1058,7 +1073,10 @@ func (s *state) drive(data []byte, j int, label string) {
 	// count field that disagrees with the entries; ingest/excise kinds). They
 	// are recorded the first few times this process meets them, then skipped.
 	cls := killClass(data, decodes)
-	if !committable {
+	if hugeCountAllocation(data, an) && an.memSize >= 64<<10 {
+		// would become a flushable batch sized by a hostile count; see hugeCountAllocation
+		r.Count("huge_count_inputs_not_executed", 1)
+	} else if !committable {
 		r.Count("db_apply_skipped_semantically_invalid_spans", 1)
 	} else if cls != "" && s.killed[cls] >= 3 {
 		r.Count("db_apply_skipped_after_3_panics:"+cls, 1)
@@ -1237,6 +1255,13 @@ func TestVerifC31WAL(t *testing.T) {
 			}
 			an := analyse(data)
 			decodes, committable := an.decodes, an.committable()
+			if hugeCountAllocation(data, an) {
+				// replay sizes allocations from the header count (replayIngestedFlushable,
+				// newFlushableBatch): up to 64 GiB, fatal "out of memory" or gigabytes of
+				// race-shadow memory on a shared machine. Not executed, only counted.
+				r.Count("huge_count_inputs_not_executed", 1)
+				continue
+			}
 			if !committable {
 				r.Count("wal_skipped_semantically_invalid_spans", 1)
 				continue
